@@ -435,6 +435,73 @@ class _PrivateProps:
                     for i, v in enumerate(val):
                         if isinstance(v, ast.AST):
                             parent[id(v)] = (n, fld, i)
+        # (0) alias properties: the getter is `return <self>.a.b` and the setter (if any) `<self>.a.b = <value>`: the property is just
+        #     another spelling of that attribute chain - every access on `self`, whatever its kind (read, store, augmented store),
+        #     is written as the chain itself, which is what the property would have evaluated
+        def _chain(e: ast.AST, root: str) -> Optional[List[str]]:
+            parts: List[str] = []
+            while isinstance(e, ast.Attribute):
+                parts.append(e.attr)
+                e = e.value
+            return list(reversed(parts)) if isinstance(e, ast.Name) and e.id == root and parts else None
+
+        def _body(fn: ast.FunctionDef) -> List[ast.stmt]:
+            return [b for b in fn.body if not (isinstance(b, ast.Expr) and isinstance(b.value, ast.Constant) and isinstance(b.value.value, str))]
+
+        for name, fn in list(cands.items()):
+            gb = _body(fn)
+            if len(gb) != 1 or not isinstance(gb[0], ast.Return) or gb[0].value is None:
+                continue
+            chain = _chain(gb[0].value, fn.args.args[0].arg)
+            if chain is None or any(c in counts for c in chain) or name in chain:
+                continue
+            st_fn = setters.get(name)
+            if st_fn is not None:
+                sb = _body(st_fn)
+                if not (len(sb) == 1 and isinstance(sb[0], ast.Assign) and len(sb[0].targets) == 1 and isinstance(sb[0].value, ast.Name)
+                        and sb[0].value.id == st_fn.args.args[1].arg and _chain(sb[0].targets[0], st_fn.args.args[0].arg) == chain):
+                    continue
+            # every mention must be an access on the enclosing method's self; without a setter only reads
+            sites: List[Tuple[ast.Attribute, str]] = []
+            ok_alias = True
+
+            def scan_alias(node: ast.AST, selfname: Optional[str]) -> None:
+                nonlocal ok_alias
+                for ch in ast.iter_child_nodes(node):
+                    if ch is fn or ch is st_fn:
+                        continue
+                    own = selfname
+                    if isinstance(ch, _FUNCS):
+                        own = ch.args.args[0].arg if ch.args.args and not any(isinstance(d, ast.Name) and d.id == "staticmethod" for d in ch.decorator_list) else selfname
+                    if isinstance(ch, ast.Attribute) and ch.attr == name:
+                        if isinstance(ch.value, ast.Name) and selfname is not None and ch.value.id == selfname and (st_fn is not None or isinstance(ch.ctx, ast.Load)) \
+                                and not isinstance(ch.ctx, ast.Del):
+                            sites.append((ch, selfname))
+                        else:
+                            ok_alias = False
+                    if isinstance(ch, ast.Constant) and ch.value == name:
+                        ok_alias = False
+                    if isinstance(ch, ast.Name) and ch.id == name:
+                        ok_alias = False
+                    scan_alias(ch, own)
+
+            scan_alias(tree, None)
+            if not ok_alias or not sites:
+                continue
+            for a, root in sites:
+                e: ast.expr = ast.copy_location(ast.Name(id=root, ctx=ast.Load()), a)
+                for part in chain[:-1]:
+                    e = ast.copy_location(ast.Attribute(value=e, attr=part, ctx=ast.Load()), a)
+                a.value = e
+                a.attr = chain[-1]
+            for c in ast.walk(tree):
+                if isinstance(c, ast.ClassDef):
+                    c.body = [x for x in c.body if x is not fn and x is not st_fn] or [ast.Pass()]
+            self.converted.append(name)
+            del cands[name]
+            setters.pop(name, None)
+        if not cands:
+            return
         for name in list(setters):
             # a store is converted only as the single target of a plain assignment statement
             for a in stores[name]:
@@ -682,12 +749,13 @@ class _GenInline:
         for n in ast.walk(tree):
             if isinstance(n, _FUNCS):
                 counts[n.name] = counts.get(n.name, 0) + 1
-        mod_gens = {st.name: (st, None) for st in tree.body
-                    if isinstance(st, ast.FunctionDef) and counts.get(st.name) == 1 and not st.decorator_list and self._shape(st) is not None}
+        mod_gens = {st.name: (self._no_yield_from(st), None) for st in tree.body
+                    if isinstance(st, ast.FunctionDef) and counts.get(st.name) == 1 and not st.decorator_list and self._shape(self._no_yield_from(st)) is not None}
         rebound = {n.id for n in ast.walk(tree) if isinstance(n, ast.Name) and isinstance(n.ctx, (ast.Store, ast.Del))} \
             | {a.arg for f in ast.walk(tree) if isinstance(f, _FUNCS + (ast.Lambda,)) for a in f.args.posonlyargs + f.args.args + f.args.kwonlyargs
                + ([f.args.vararg] if f.args.vararg else []) + ([f.args.kwarg] if f.args.kwarg else [])}
         for alias, g in self.imported.items():
+            g = self._no_yield_from(g)
             if alias not in counts and alias not in rebound and alias not in mod_gens and self._shape(g) is not None:
                 mod_gens[alias] = (g, None)
         for c in [tree] + [x for x in ast.walk(tree) if isinstance(x, ast.ClassDef)]:
@@ -696,8 +764,8 @@ class _GenInline:
                 for st in c.body:
                     if isinstance(st, ast.FunctionDef) and counts.get(st.name) == 1:
                         kind = self._method_kind(st)
-                        if kind in ("method", "staticmethod") and self._shape(st) is not None:
-                            cls_gens[st.name] = (st, kind)
+                        if kind in ("method", "staticmethod") and self._shape(self._no_yield_from(st)) is not None:
+                            cls_gens[st.name] = (self._no_yield_from(st), kind)
             for fn in (c.body if isinstance(c, ast.ClassDef) else tree.body):
                 if isinstance(fn, _FUNCS):
                     for _ in range(6):
@@ -708,12 +776,49 @@ class _GenInline:
             for c in [tree] + [x for x in ast.walk(tree) if isinstance(x, ast.ClassDef)]:
                 for st in list(c.body):
                     if isinstance(st, ast.FunctionDef) and st.name.startswith("_") and not st.name.startswith("__") and counts.get(st.name) == 1 \
-                            and any(isinstance(x, ast.Yield) for x in _own_nodes(st)):
+                            and any(isinstance(x, (ast.Yield, ast.YieldFrom)) for x in _own_nodes(st)):
                         refs = [x for x in ast.walk(tree) if (isinstance(x, ast.Name) and x.id == st.name) or (isinstance(x, ast.Attribute) and x.attr == st.name)
                                 or (isinstance(x, ast.Constant) and x.value == st.name)]
                         if not refs:
                             c.body.remove(st)
                             self.dropped.append(st.name)
+
+    def _no_yield_from(self, g: ast.FunctionDef) -> ast.FunctionDef:
+        """g, or - when g delegates with `yield from E` statements - a copy in which each of them reads `for v in E: yield v`.
+        The two differ only for a consumer that sends values / throws into the generator or uses the sub-generator's return
+        value; the copy is used for nothing but writing g out at a `for` loop or a list()/set()/tuple() call, which do neither.
+        The definition in the tree stays as it is."""
+        cache = self.__dict__.setdefault("_nyf", {})
+        if id(g) in cache:
+            return cache[id(g)]
+        res = g
+        yfs = [n for n in _own_nodes(g) if isinstance(n, ast.YieldFrom)]
+        if yfs:
+            stmts = [n for n in _own_nodes(g) if isinstance(n, ast.Expr) and isinstance(n.value, ast.YieldFrom)]
+            if len(stmts) == len(yfs):
+                res = self.copy.deepcopy(g)
+                k = [0]
+
+                class T(ast.NodeTransformer):
+                    def visit_FunctionDef(self_, node):
+                        if node is res:
+                            self_.generic_visit(node)
+                        return node
+
+                    visit_AsyncFunctionDef = visit_Lambda = visit_ClassDef = lambda self_, node: node
+
+                    def visit_Expr(self_, node):
+                        if isinstance(node.value, ast.YieldFrom):
+                            k[0] += 1
+                            v = f"_yf{k[0]}"
+                            loop = ast.For(target=ast.Name(id=v, ctx=ast.Store()), iter=node.value.value,
+                                           body=[ast.Expr(value=ast.Yield(value=ast.Name(id=v, ctx=ast.Load())))], orelse=[])
+                            return ast.fix_missing_locations(ast.copy_location(loop, node))
+                        return node
+
+                T().visit(res)
+        cache[id(g)] = res
+        return res
 
     @staticmethod
     def _method_kind(st: ast.FunctionDef) -> Optional[str]:
@@ -1104,9 +1209,10 @@ class _GenInline:
         call = v.args[0]
         arg_names = {x.id for x in ast.walk(call) if isinstance(x, ast.Name)}
         tgt = None
-        if isinstance(st, ast.Assign) and len(st.targets) == 1 and isinstance(st.targets[0], ast.Name) and v.func.id == "list" and st.targets[0].id not in arg_names:
+        as_set = v.func.id == "set"  # (a set is built by adding: `set(g())` == `acc = set()` + `acc.add(E)` per yield)
+        if isinstance(st, ast.Assign) and len(st.targets) == 1 and isinstance(st.targets[0], ast.Name) and v.func.id in ("list", "set") and st.targets[0].id not in arg_names:
             tgt = st.targets[0].id
-        elif isinstance(st, ast.AnnAssign) and isinstance(st.target, ast.Name) and v.func.id == "list" and st.target.id not in arg_names:
+        elif isinstance(st, ast.AnnAssign) and isinstance(st.target, ast.Name) and v.func.id in ("list", "set") and st.target.id not in arg_names:
             tgt = st.target.id
         inst = self._instantiate(g, is_method, recv_self, call, {tgt} if tgt else set())
         if inst is None:
@@ -1117,19 +1223,23 @@ class _GenInline:
             return None  # (g reads a global of that name)
 
         def at_yield(val: ast.expr) -> List[ast.stmt]:
-            app = ast.Call(func=ast.Attribute(value=ast.Name(id=acc, ctx=ast.Load()), attr="append", ctx=ast.Load()), args=[val], keywords=[])
+            app = ast.Call(func=ast.Attribute(value=ast.Name(id=acc, ctx=ast.Load()), attr="add" if as_set else "append", ctx=ast.Load()), args=[val], keywords=[])
             return [ast.copy_location(ast.Expr(value=app), st)]
+
+        def empty() -> ast.expr:
+            return ast.Call(func=ast.Name(id="set", ctx=ast.Load()), args=[], keywords=[]) if as_set else ast.List(elts=[], ctx=ast.Load())
 
         first: ast.stmt
         if isinstance(st, ast.AnnAssign) and tgt is not None:
-            first = ast.AnnAssign(target=ast.Name(id=acc, ctx=ast.Store()), annotation=st.annotation, value=ast.List(elts=[], ctx=ast.Load()), simple=1)
+            first = ast.AnnAssign(target=ast.Name(id=acc, ctx=ast.Store()), annotation=st.annotation, value=empty(), simple=1)
         else:
-            first = ast.Assign(targets=[ast.Name(id=acc, ctx=ast.Store())], value=ast.List(elts=[], ctx=ast.Load()))
+            first = ast.Assign(targets=[ast.Name(id=acc, ctx=ast.Store())], value=empty())
         # (the arguments are evaluated before the list exists in the original; an empty display has no effect, the order is immaterial)
-        new = prelude + [ast.copy_location(first, st)] + self._splice(body, at_yield)
+        # (the empty accumulator first: it has no effect of its own, and the parameter bindings then directly precede the code that reads them)
+        new = [ast.copy_location(first, st)] + prelude + self._splice(body, at_yield)
         if tgt is None:
             res: ast.expr = ast.Name(id=acc, ctx=ast.Load())
-            if v.func.id != "list":
+            if v.func.id == "tuple":
                 res = ast.Call(func=ast.Name(id=v.func.id, ctx=ast.Load()), args=[res], keywords=[])
             st2 = copy.copy(st)
             st2.value = res
@@ -1137,6 +1247,82 @@ class _GenInline:
         for x in new:
             ast.fix_missing_locations(x)
         return new
+
+
+class _GenexpLoops(ast.NodeTransformer):
+    """`for X in (E for y in Y if C): BODY`  ->  `for y' in Y: if not C: continue; X = E; BODY` (y' a fresh name).
+    A generator expression consumed by a `for` statement produces its elements one at a time, each right before the body runs:
+    that is the loop over Y with the element computed at the top of the body.  Only for a single `for` clause with a plain name
+    as its variable, no `else` on the loop, and a body without `continue` when the comprehension has conditions after which the
+    element would have to be skipped (the rewritten `continue` is the comprehension's own)."""
+    def __init__(self):
+        self.rewritten = 0
+
+    def visit_For(self, node: ast.For):
+        self.generic_visit(node)
+        it = node.iter
+        if isinstance(it, ast.GeneratorExp) and len(it.generators) == 1 and not node.orelse and not it.generators[0].is_async \
+                and isinstance(it.generators[0].target, ast.Name) and not any(isinstance(x, (ast.NamedExpr, ast.Yield, ast.YieldFrom, ast.Await)) for x in ast.walk(it)):
+            gen = it.generators[0]
+            self.rewritten += 1
+            old, new = gen.target.id, f"_ge{self.rewritten}_{gen.target.id}"
+
+            def ren(e: ast.AST) -> ast.AST:
+                for x in ast.walk(e):
+                    if isinstance(x, ast.Name) and x.id == old:
+                        x.id = new
+                return e
+
+            pre: List[ast.stmt] = []
+            for c in gen.ifs:
+                pre.append(ast.copy_location(ast.If(test=_negate(ren(c)), body=[ast.copy_location(ast.Continue(), node)], orelse=[]), node))
+            pre.append(ast.copy_location(ast.Assign(targets=[node.target], value=ren(it.elt)), node))
+            loop = ast.copy_location(ast.For(target=ast.Name(id=new, ctx=ast.Store()), iter=gen.iter, body=pre + node.body, orelse=[]), node)
+            return ast.fix_missing_locations(loop)
+        return node
+
+
+class _BulkAdds(ast.NodeTransformer):
+    """`for v in M: acc.add(v)` -> `acc.update(M)` and `for v in M: acc.append(v)` -> `acc.extend(M)` (acc and v plain names, v used
+    nowhere else in the function, M a name or attribute chain other than acc): that is what update / extend do."""
+    def __init__(self):
+        self.rewritten = 0
+
+    def _fn(self, fn):
+        uses: Dict[str, int] = {}
+        for x in _own_nodes(fn):
+            if isinstance(x, ast.Name):
+                uses[x.id] = uses.get(x.id, 0) + 1
+        outer = self
+
+        class T(ast.NodeTransformer):
+            def visit_FunctionDef(self_, node):
+                return node if node is not fn else self_.generic_visit(node) or node
+
+            visit_AsyncFunctionDef = visit_FunctionDef
+
+            def visit_For(self_, node: ast.For):
+                self_.generic_visit(node)
+                if not node.orelse and isinstance(node.target, ast.Name) and len(node.body) == 1 and isinstance(node.body[0], ast.Expr) \
+                        and isinstance(node.body[0].value, ast.Call):
+                    c = node.body[0].value
+                    if isinstance(c.func, ast.Attribute) and c.func.attr in ("add", "append") and isinstance(c.func.value, ast.Name) and len(c.args) == 1 \
+                            and not c.keywords and isinstance(c.args[0], ast.Name) and c.args[0].id == node.target.id and uses.get(node.target.id, 0) == 2 \
+                            and _pure(node.iter) and isinstance(node.iter, (ast.Name, ast.Attribute)) \
+                            and not any(isinstance(x, ast.Name) and x.id == c.func.value.id for x in ast.walk(node.iter)):
+                        outer.rewritten += 1
+                        call = ast.Call(func=ast.Attribute(value=c.func.value, attr="update" if c.func.attr == "add" else "extend", ctx=ast.Load()),
+                                        args=[node.iter], keywords=[])
+                        return ast.fix_missing_locations(ast.copy_location(ast.Expr(value=call), node))
+                return node
+
+        T().visit(fn)
+
+    def visit(self, tree: ast.AST):
+        for n in ast.walk(tree):
+            if isinstance(n, _FUNCS):
+                self._fn(n)
+        return tree
 
 
 class _LoopShapes(ast.NodeTransformer):
@@ -1342,7 +1528,7 @@ def closed_generators(tree: ast.Module) -> Dict[str, ast.FunctionDef]:
     out: Dict[str, ast.FunctionDef] = {}
     for st in tree.body:
         if not (isinstance(st, ast.FunctionDef) and counts.get(st.name) == 1 and not st.decorator_list
-                and any(isinstance(x, ast.Yield) for x in _own_nodes(st))):
+                and any(isinstance(x, (ast.Yield, ast.YieldFrom)) for x in _own_nodes(st))):
             continue
         a = st.args
         if a.defaults or any(d is not None for d in a.kw_defaults) and not all(isinstance(d, ast.Constant) for d in a.kw_defaults if d is not None):
@@ -1359,7 +1545,7 @@ def closed_generators(tree: ast.Module) -> Dict[str, ast.FunctionDef]:
 
 def normalise(tree: ast.Module, imported_gens: Optional[Dict[str, ast.FunctionDef]] = None) -> ast.Module:
     gi = _GenInline(imported_gens)
-    if imported_gens or any(isinstance(x, ast.Yield) for x in ast.walk(tree)):
+    if imported_gens or any(isinstance(x, (ast.Yield, ast.YieldFrom)) for x in ast.walk(tree)):
         _Fold().visit(tree)  # (`gen = self._items(...)` followed by `for x in gen:` becomes a loop over the call)
         gi.visit(tree)
     tree._tpsa_gen_inlined = gi.inlined  # type: ignore[attr-defined]
@@ -1385,6 +1571,12 @@ def normalise(tree: ast.Module, imported_gens: Optional[Dict[str, ast.FunctionDe
     u.visit(tree)
     f2 = _Fold()
     f2.visit(tree)
+    gl = _GenexpLoops()
+    gl.visit(tree)
+    ba2 = _BulkAdds()
+    ba2.visit(tree)
+    if gl.rewritten or ba2.rewritten:
+        _Fold().visit(tree)
     ast.fix_missing_locations(tree)
     tree._tpsa_folded = f.folded + f2.folded  # type: ignore[attr-defined]
     tree._tpsa_unrolled = u.unrolled  # type: ignore[attr-defined]
